@@ -38,6 +38,10 @@ pub struct Shape {
     pub committed: usize,
     /// lengths of the instance columns
     pub inst_lens: Vec<usize>,
+    /// number of trailing instance columns the circuit never references (no
+    /// gate, no equality): bound to the proof by the transcript only
+    #[serde(default)]
+    pub inst_unused: usize,
     /// constraint-system degree to reach (3..=6)
     pub deg: usize,
     /// rotation of the product cell in the mul gate (0 or 1) and of the pow gate (0 or -1)
@@ -65,6 +69,9 @@ pub struct Shape {
 impl Shape {
     pub fn phases(&self) -> usize {
         self.adv.len()
+    }
+    pub fn inst_used(&self) -> usize {
+        self.inst - self.inst_unused.min(self.inst)
     }
     pub fn a0(&self) -> usize {
         self.adv[0].max(3).max(self.inst)
@@ -120,7 +127,7 @@ pub enum Op {
 impl Op {
     pub fn rows(&self, sh: &Shape) -> usize {
         match self {
-            Op::InstRows => sh.inst_lens.iter().copied().max().unwrap_or(0),
+            Op::InstRows => sh.inst_lens.iter().take(sh.inst_used()).copied().max().unwrap_or(0),
             Op::Mul { .. } => 1 + sh.rot_mul as usize,
             Op::Pow { .. } => 1 + (-sh.rot_pow) as usize,
             Op::Extra { .. } => 3,
@@ -180,7 +187,7 @@ impl ShapeCircuit {
         let usable = n - (cs.blinding_factors() + 1);
         let mut ops = vec![];
         let mut rows = 0usize;
-        if sh.inst > 0 {
+        if sh.inst_used() > 0 {
             ops.push(Op::InstRows);
             rows += Op::InstRows.rows(&sh);
         }
@@ -210,7 +217,7 @@ impl ShapeCircuit {
         }
         if sh.perm >= 1 {
             menu.push(12);
-            if instance.iter().any(|c| !c.is_empty()) {
+            if instance.iter().take(sh.inst_used()).any(|c| !c.is_empty()) {
                 menu.push(11);
             }
         }
@@ -249,7 +256,8 @@ impl ShapeCircuit {
                 9 => Op::Trash { j: c % sh.trash, x },
                 10 => Op::Copy { x },
                 11 => {
-                    let js: Vec<usize> = (0..sh.inst).filter(|&j| !instance[j].is_empty()).collect();
+                    let js: Vec<usize> =
+                        (0..sh.inst_used()).filter(|&j| !instance[j].is_empty()).collect();
                     let j = js[(sx as usize) % js.len()];
                     Op::CopyInst { j, row: (sy as usize) % instance[j].len() }
                 }
@@ -303,6 +311,7 @@ impl ShapeCircuit {
             Op::InstRows => self
                 .instance
                 .iter()
+                .take(self.shape.inst_used())
                 .map(|c| c.len())
                 .sum(),
             Op::Mul { .. } => 3,
@@ -394,7 +403,7 @@ impl Circuit<F> for ShapeCircuit {
             for col in a.iter().take(sh.perm.min(3)) {
                 meta.enable_equality(*col);
             }
-            for col in inst.iter() {
+            for col in inst.iter().take(sh.inst_used()) {
                 meta.enable_equality(*col);
             }
             Some(cc)
@@ -405,7 +414,7 @@ impl Circuit<F> for ShapeCircuit {
         let s_mul = meta.selector();
         let s_pow = meta.selector();
         let s_fx = meta.selector();
-        let s_inst: Vec<Selector> = (0..sh.inst).map(|_| meta.selector()).collect();
+        let s_inst: Vec<Selector> = (0..sh.inst_used()).map(|_| meta.selector()).collect();
         let s_extra: Vec<Selector> = (3..a0).map(|_| meta.selector()).collect();
         let s_b: Vec<Selector> = b.iter().map(|_| meta.selector()).collect();
         let s_c: Vec<Selector> = c.iter().map(|_| meta.selector()).collect();
@@ -433,7 +442,7 @@ impl Circuit<F> for ShapeCircuit {
             let f = m.query_fixed(fx, Rotation::cur());
             Constraints::with_selector(s_fx, vec![x - f])
         });
-        for j in 0..sh.inst {
+        for j in 0..sh.inst_used() {
             meta.create_gate("inst", |m| {
                 let x = m.query_advice(a[j], Rotation::cur());
                 let i = m.query_instance(inst[j], Rotation::cur());
@@ -590,7 +599,9 @@ impl Circuit<F> for ShapeCircuit {
                     match op {
                         Op::InstRows => {
                             let mut slot = 0;
-                            for (j, col) in self.instance.iter().enumerate() {
+                            for (j, col) in
+                                self.instance.iter().enumerate().take(sh.inst_used())
+                            {
                                 for (row, v) in col.iter().enumerate() {
                                     cfg.s_inst[j].enable(&mut r, row)?;
                                     r.assign_advice(|| "i", cfg.a[j], row, || {
@@ -726,6 +737,7 @@ pub fn random_shape(seed: u64) -> Shape {
         inst,
         committed,
         inst_lens,
+        inst_unused: if inst > committed { rng.gen_range(0..=(inst - committed)) } else { 0 },
         deg: rng.gen_range(3..=6),
         rot_mul: rng.gen_range(0..=1),
         rot_pow: -rng.gen_range(0..=1),
